@@ -1156,6 +1156,15 @@ func (e *Entry) Augment(addErrors bool) (processed, skipped int) {
 	var unapplied []*Entry
 	for _, a := range e.Augments {
 		target := a.Find(a.Name)
+		// A path without a leading slash is looked up from the augment
+		// itself: it must not find the augment or one of the nodes the
+		// augment is about to add.
+		for t := target; t != nil; t = t.Parent {
+			if t == a {
+				target = nil
+				break
+			}
+		}
 		if target == nil {
 			if addErrors {
 				e.errorf("%s: augment %s not found", Source(a.Node), a.Name)
